@@ -1,6 +1,7 @@
 import HgVerif.Model.Sched
 import HgVerif.Model.NodeSched
 import HgVerif.Model.Lifecycle
+import HgVerif.Model.Feedback
 /-
 Executable model of the engine over the harness vocabulary of `harness/drv_engine.cpp`
 (all ports `TS[int]`): node start/evaluate/stop (`node.cpp`), output write → notification →
@@ -83,7 +84,7 @@ structure NodeRt where
   cs : Nat := 0
   ce : Nat := 0
   cx : Nat := 0
-  pend : Option Int := none     -- feedback source: captured delta waiting for delivery
+  fb : HgVerif.Feedback.FB := {}     -- feedback source: captured delta waiting for delivery (Model/Feedback.lean)
 deriving Repr
 
 structure InstRt where
@@ -332,14 +333,15 @@ def userEval (p : CProg) : Nat → Nat → Nat → Time → St → UserRes
       { st := writeOut p s1 inst idx .main 1 "" t }
     | .fbsrc _ =>
       let n := s.node inst idx
-      match n.pend with
-      | some v => { st := writeOut p (s.setNode inst idx { n with pend := none }) inst idx .main v "" t }
+      let r := HgVerif.Feedback.sourceStep t n.fb
+      match r.2 with
+      | some v => { st := writeOut p (s.setNode inst idx { n with fb := r.1 }) inst idx .main v "" t }
       | none => { st := s }
     | .fbsink srcIdx =>
       -- evaluate_feedback_sink: capture the producer's delta, schedule the source at t + MIN_TD
       if inModified s a t then
         let sn := s.node inst srcIdx
-        let s1 := s.setNode inst srcIdx { sn with pend := some (inValue s a) }
+        let s1 := s.setNode inst srcIdx { sn with fb := HgVerif.Feedback.sinkStep t (some (inValue s a)) sn.fb }
         { st := schedAbs p (depthFuel p) s1 inst srcIdx (t + 1) }
       else { st := s }
 
@@ -465,7 +467,7 @@ def nodeStart (p : CProg) : Nat → Nat → Nat → Time → St → UserRes
     | .fbsrc init =>
       match init with
       | some v =>
-        let s1 := s.setNode inst idx { n with pend := some v }
+        let s1 := s.setNode inst idx { n with fb := { pend := some (t, v) } }
         { st := schedAbs p (depthFuel p) (markStarted s1) inst idx t }
       | none => { st := markStarted s }
     | _ => { st := markStarted s }
